@@ -229,13 +229,20 @@ package dawn
 
 // ---------------------------------------------------------------- C16/C01: environment comparison
 // A function target is reported up to date only if its recorded and current environments are equal.
+//   last_has - result of the latest MappingDiff.Has query of this goroutine
+//@ ghost last_has bool threadlocal = false
+//@ func (*diff.MappingDiff).Has
+//@   trusted
+//@   ensures last_has == result
+//@   modifies last_has
 //@ func (*dawn.function).diffEnv
 //@   requires f != nil
 //@   nopanic
 //@   ensures  uptodate-only-if-equal: result.0 ==> (result.3 == nil && steq(f.oldEnv, f.newEnv))
 //@   ensures  reason-or-error: (!result.0 && result.3 == nil) ==> result.1 != ""
+//@   loop over functionEnvKeys: step one-reason-per-differing-key: when true ensures len(reasons) == old(len(reasons)) + ite(last_has, 1, 0) && (last_has ==> reasons[old(len(reasons))] == string(k))
 //@   ensures  equal-means-uptodate: (result.3 == nil && steq(f.oldEnv, f.newEnv) && old(f.oldEnv) != ifaceas("starlark.NoneType", 0)) ==> result.0
-//@   modifies heap, dkeys, dvals, it_seen
+//@   modifies heap, dkeys, dvals, it_seen, last_has
 
 // ---------------------------------------------------------------- C17: glob() walks every directory
 // The walk callback of glob() prunes nothing but the build-state directory: a non-nil result other
@@ -523,7 +530,7 @@ package dawn
 //@   requires f != nil
 //@   callsite functionEnv: assert fingerprints-the-present-function: $0 == f.function
 //@   ensures  env-equal-or-always: (result.3 == nil && result.0) ==> (f.always || steq(f.oldEnv, f.newEnv))
-//@   modifies heap, olen, obytes, ipos, dkeys, dvals, it_seen
+//@   modifies heap, olen, obytes, ipos, dkeys, dvals, it_seen, last_has
 
 // A function target's flags and declared outputs are fixed when it is created.
 //@ struct dawn.function
@@ -535,7 +542,7 @@ package dawn
 //@   requires f != nil
 //@   ensures  outputs-present: (result.3 == nil && result.0 && !f.always) ==> (forall i: int :: 0 <= i && i < len(f.gens) ==> statted[f.gens[i]])
 //@   ensures  out-of-date-for-a-cause: (result.3 == nil && !result.0 && !old(missing_seen)) ==> (missing_seen || !steq(f.oldEnv, f.newEnv) || f.oldEnv == ifaceas("starlark.NoneType", 0))
-//@   modifies heap, olen, obytes, ipos, dkeys, dvals, it_seen, statted, missing_seen
+//@   modifies heap, olen, obytes, ipos, dkeys, dvals, it_seen, statted, missing_seen, last_has
 //@   loop over f.gens: invariant f != nil && !f.always
 //@   loop over f.gens: invariant checked-so-far: forall i: int :: 0 <= i && i <= rangeindex ==> statted[f.gens[i]]
 
